@@ -1,0 +1,9 @@
+//go:build !verif
+
+package actor
+
+// The verification seam is compiled out: the guarded branch in the
+// controllers' tell methods is dead code.
+const reliableSimEnabled = false
+
+func reliableSimIntercept(*PID, *PID, any) bool { return false }
